@@ -1,2 +1,222 @@
-(** C19 - theorems under construction. *)
-From Coq Require Import ZArith.
+(** C19 - the shipped string front-end plus the library parses decimal literals correctly.
+    Statements only (closed by [exact]); proofs in proofs/FrontEndFacts.v, about model/FrontEnd.v
+    (variant [fe_simple] = examples/simple.rs and the etc/correctness copies; [fe_fuzz] = the
+    fuzz-target / integration-test copies with the special literals and the empty-input rule).
+    The lexer theorems are unconditional (every byte string).  The *value* of the matched prefix is
+    whatever [parse_float] returns on the trimmed digits ([lex_decompose]); that it is the correctly
+    rounded one is C01/C02 (see props/C01.v for what is proved of it). *)
+
+From Coq Require Import ZArith QArith List Bool.
+From ML Require Import base.RustSem model.Fmt model.Num model.FloatOps model.Number model.Top model.FrontEnd
+  spec.Decimal gen.Consts gen.Tables gen.BTables gen.PowDump proofs.FrontEndFacts.
+Import ListNotations.
+
+Open Scope Z_scope.
+
+Theorem C19_consume_digits_spec :
+  forall s d r : list Z,
+         consume_digits s = (d, r) ->
+         s = d ++ r /\
+         Forall digit d /\ (r = [] \/ (exists (c : Z) (r' : list Z), r = c :: r' /\ is_digit c = false)).
+Proof. exact consume_digits_spec. Qed.
+
+Theorem C19_parse_sign_spec :
+  forall (s : list Z) (p : bool) (r : list Z),
+         parse_sign s = (p, r) ->
+         s = 43 :: r /\ p = true \/ s = 45 :: r /\ p = false \/ s = r /\ p = true /\ head_not is_signch s.
+Proof. exact parse_sign_spec. Qed.
+
+Theorem C19_ltrim_zero_spec :
+  forall s : list Z,
+         exists k : nat, s = repeat 48 k ++ ltrim_zero s /\ head_not (fun c : Z => c =? 48) (ltrim_zero s).
+Proof. exact ltrim_zero_spec. Qed.
+
+Theorem C19_ltrim_zero_value :
+  forall s : list Z, digits_to_Z (ltrim_zero s) = digits_to_Z s.
+Proof. exact ltrim_zero_value. Qed.
+
+Theorem C19_rtrim_zero_spec :
+  forall s : list Z, exists k : nat, s = rtrim_zero s ++ repeat 48 k /\ last_not_zero (rtrim_zero s).
+Proof. exact rtrim_zero_spec. Qed.
+
+Theorem C19_rtrim_zero_value :
+  forall s : list Z,
+         exists k : nat,
+           s = rtrim_zero s ++ repeat 48 k /\
+           digits_to_Z s = digits_to_Z (rtrim_zero s) * 10 ^ Z.of_nat k /\
+           zlen s = zlen (rtrim_zero s) + Z.of_nat k.
+Proof. exact rtrim_zero_value. Qed.
+
+Theorem C19_parse_exponent_saturates :
+  forall ed : list Z,
+         Forall digit ed ->
+         parse_exponent ed true = Z.min i32_max (digits_to_Z ed) /\
+         parse_exponent ed false = Z.max i32_min (- digits_to_Z ed).
+Proof. exact parse_exponent_saturates. Qed.
+
+Theorem C19_parse_exponent_in_i32 :
+  forall (ed : list Z) (pos : bool), in_s 32 (parse_exponent ed pos) = true.
+Proof. exact parse_exponent_in_i32. Qed.
+
+Theorem C19_lex_spec :
+  forall s : list Z,
+         exists sign_part frac_part exp_part : list Z, lex_shape s (lex s) sign_part frac_part exp_part.
+Proof. exact lex_spec. Qed.
+
+Theorem C19_lex_unique :
+  forall (s : list Z) (x : lexed) (sign_part frac_part exp_part : list Z),
+         lex_shape s x sign_part frac_part exp_part -> lex s = x.
+Proof. exact lex_unique. Qed.
+
+Theorem C19_lex_decompose :
+  forall (c : config) (T : tables) (BT : btables) (L : limits) (f : format) (b : build) (s : list Z),
+         exists (sign_part int frac_part exp_part rest : list Z) (pos : bool) (frac : list Z) 
+         (e : Z),
+           lex_shape s {| lx_pos := pos; lx_int := int; lx_frac := frac; lx_exp := e; lx_rest := rest |}
+             sign_part frac_part exp_part /\
+           fe_core c T BT L f b false s =
+           v <- parse_float c T BT L f b (ltrim_zero int) (rtrim_zero frac) e;; Ok (apply_sign f pos v, rest).
+Proof. exact lex_decompose. Qed.
+
+Theorem C19_lex_establishes_preconditions_len :
+  forall s : list Z,
+         zlen s < 2 ^ 31 - 2 ->
+         valid_input (ltrim_zero (lx_int (lex s))) (rtrim_zero (lx_frac (lex s))) (lx_exp (lex s)).
+Proof. exact lex_establishes_preconditions_len. Qed.
+
+Theorem C19_trim_preserves_value :
+  forall (int frac : list Z) (e : Z),
+         dec_value (ltrim_zero int) (rtrim_zero frac) e == dec_value int frac e.
+Proof. exact trim_preserves_value. Qed.
+
+Theorem C19_lex_longest_prefix :
+  forall s : list Z,
+         exists p : list Z,
+           s = p ++ lx_rest (lex s) /\
+           float_prefix p /\
+           (forall p' q' : list Z, s = p' ++ q' -> float_prefix p' -> (length p' <= length p)%nat).
+Proof. exact lex_longest_prefix. Qed.
+
+Theorem C19_ci_starts_with_spec :
+  forall y x : list Z,
+         ci_starts_with x y = true <->
+         (exists x1 x2 : list Z, x = x1 ++ x2 /\ length x1 = length y /\ Forall2 ci_byte x1 y).
+Proof. exact ci_starts_with_spec. Qed.
+
+Theorem C19_accepted_bytes_complete :
+  forall xi yi : Z, 0 <= xi <= 255 -> ci_starts_with [xi] [yi] = true <-> In xi (accepted_bytes yi).
+Proof. exact accepted_bytes_complete. Qed.
+
+Theorem C19_fe_fuzz_nan :
+  forall (c : config) (T : tables) (BT : btables) (L : limits) (f : format) (b : build),
+         fmt_special_ok f = true ->
+         forall (s : list Z) (pos : bool) (s1 : list Z),
+         parse_sign s = (pos, s1) ->
+         ci_starts_with s1 lit_nan = true ->
+         fe_fuzz c T BT L f b s = Ok (apply_sign f pos (qnan_bits f), skipn 3 s1).
+Proof. exact fe_fuzz_nan. Qed.
+
+Theorem C19_fe_fuzz_infinity :
+  forall (c : config) (T : tables) (BT : btables) (L : limits) (f : format) (b : build),
+         fmt_special_ok f = true ->
+         forall (s : list Z) (pos : bool) (s1 : list Z),
+         parse_sign s = (pos, s1) ->
+         ci_starts_with s1 lit_nan = false ->
+         ci_starts_with s1 lit_infinity = true ->
+         fe_fuzz c T BT L f b s = Ok (apply_sign f pos (EXPONENT_MASK f), skipn 8 s1).
+Proof. exact fe_fuzz_infinity. Qed.
+
+Theorem C19_fe_fuzz_inf :
+  forall (c : config) (T : tables) (BT : btables) (L : limits) (f : format) (b : build),
+         fmt_special_ok f = true ->
+         forall (s : list Z) (pos : bool) (s1 : list Z),
+         parse_sign s = (pos, s1) ->
+         ci_starts_with s1 lit_nan = false ->
+         ci_starts_with s1 lit_infinity = false ->
+         ci_starts_with s1 lit_inf = true ->
+         fe_fuzz c T BT L f b s = Ok (apply_sign f pos (EXPONENT_MASK f), skipn 3 s1).
+Proof. exact fe_fuzz_inf. Qed.
+
+Theorem C19_fe_fuzz_numeric :
+  forall (c : config) (T : tables) (BT : btables) (L : limits) (f : format) 
+           (b : build) (s : list Z) (pos : bool) (s1 : list Z),
+         parse_sign s = (pos, s1) ->
+         ci_starts_with s1 lit_nan = false ->
+         ci_starts_with s1 lit_infinity = false ->
+         ci_starts_with s1 lit_inf = false -> fe_fuzz c T BT L f b s = fe_numeric c T BT L f b true s.
+Proof. exact fe_fuzz_numeric. Qed.
+
+Theorem C19_lex_consumes_nothing_iff :
+  forall s : list Z, zlen (lx_rest (lex s)) = zlen s <-> head_not starts_float s.
+Proof. exact lex_consumes_nothing_iff. Qed.
+
+Theorem C19_fe_numeric_empty_match :
+  forall (c : config) (T : tables) (BT : btables) (L : limits) (f : format) (b : build) (s : list Z),
+         head_not starts_float s -> fe_numeric c T BT L f b true s = Ok (f_from_u64 f 0, s).
+Proof. exact fe_numeric_empty_match. Qed.
+
+Theorem C19_front_end_total :
+  forall (c : config) (T : tables) (BT : btables) (L : limits) (f : format) 
+           (b : build) (special : bool) (s : list Z),
+         (special = true -> fmt_special_ok f = true) ->
+         match fe_core c T BT L f b special s with
+         | Ok _ => True
+         | Panic k => inner_call c T BT L f b s = Panic k
+         | UB k => inner_call c T BT L f b s = UB k
+         end.
+Proof. exact front_end_total. Qed.
+
+Theorem C19_fe_simple_total :
+  forall (c : config) (T : tables) (BT : btables) (L : limits) (f : format) (b : build) (s : list Z),
+         is_ok (inner_call c T BT L f b s) = true -> is_ok (fe_simple c T BT L f b s) = true.
+Proof. exact fe_simple_total. Qed.
+
+Theorem C19_fe_fuzz_total_F32_F64 :
+  forall (c : config) (T : tables) (BT : btables) (L : limits) (b : build) (s : list Z),
+         (is_ok (inner_call c T BT L F32 b s) = true -> is_ok (fe_fuzz c T BT L F32 b s) = true) /\
+         (is_ok (inner_call c T BT L F64 b s) = true -> is_ok (fe_fuzz c T BT L F64 b s) = true).
+Proof. exact fe_fuzz_total_F32_F64. Qed.
+
+Theorem C19_fe_simple_main :
+  forall (c : config) (T : tables) (BT : btables) (L : limits) (f : format) (b : build) (s : list Z),
+         let x := lex s in
+         let i := ltrim_zero (lx_int x) in
+         let fr := rtrim_zero (lx_frac x) in
+         (exists sign_part frac_part exp_part : list Z, lex_shape s x sign_part frac_part exp_part) /\
+         (exists p : list Z,
+            s = p ++ lx_rest x /\
+            float_prefix p /\
+            (forall p' q' : list Z, s = p' ++ q' -> float_prefix p' -> (length p' <= length p)%nat)) /\
+         (zlen s < 2 ^ 31 - 2 -> valid_input i fr (lx_exp x)) /\
+         dec_value i fr (lx_exp x) == dec_value (lx_int x) (lx_frac x) (lx_exp x) /\
+         fe_simple c T BT L f b s =
+         v <- parse_float c T BT L f b i fr (lx_exp x);; Ok (if lx_pos x then v else f_neg f v, lx_rest x).
+Proof. exact fe_simple_main. Qed.
+
+
+Print Assumptions C19_consume_digits_spec.
+Print Assumptions C19_parse_sign_spec.
+Print Assumptions C19_ltrim_zero_spec.
+Print Assumptions C19_ltrim_zero_value.
+Print Assumptions C19_rtrim_zero_spec.
+Print Assumptions C19_rtrim_zero_value.
+Print Assumptions C19_parse_exponent_saturates.
+Print Assumptions C19_parse_exponent_in_i32.
+Print Assumptions C19_lex_spec.
+Print Assumptions C19_lex_unique.
+Print Assumptions C19_lex_decompose.
+Print Assumptions C19_lex_establishes_preconditions_len.
+Print Assumptions C19_trim_preserves_value.
+Print Assumptions C19_lex_longest_prefix.
+Print Assumptions C19_ci_starts_with_spec.
+Print Assumptions C19_accepted_bytes_complete.
+Print Assumptions C19_fe_fuzz_nan.
+Print Assumptions C19_fe_fuzz_infinity.
+Print Assumptions C19_fe_fuzz_inf.
+Print Assumptions C19_fe_fuzz_numeric.
+Print Assumptions C19_lex_consumes_nothing_iff.
+Print Assumptions C19_fe_numeric_empty_match.
+Print Assumptions C19_front_end_total.
+Print Assumptions C19_fe_simple_total.
+Print Assumptions C19_fe_fuzz_total_F32_F64.
+Print Assumptions C19_fe_simple_main.
